@@ -22,6 +22,7 @@ import EaselModel.Alphabet.SqCopyLemmas
 import EaselModel.Alphabet.MatchLemmas
 import EaselModel.Alphabet.FetchLemmas
 import EaselModel.Alphabet.GetAllocLemmas
+import EaselModel.Alphabet.ObjLemmas
 /-! # C08 — property theorems (statements + glue only; lemmas live in Alphabet/*.lean)
 
 `G.dna`, `G.rna`, `G.amino`, `G.coins`, `G.dice` are the tables dumped from the code under check on this run
@@ -893,6 +894,110 @@ example :
     (a.setDegeneracy (ch 'R') (str "AG")).1 = .ok ∧ (a.setDegeneracy (ch 'R') (str "AG")).2.degenSet 5 = [0, 2] ∧
     ((a.setEquiv (ch 'a') (ch 'C')).2.setCaseInsensitive).1 = .ecorrupt ∧
     ((a.setIgnored (str " \t")).digitize (str "A C\tG")) = (.ok, mkDsq [0, 1, 2]) := by decide +kernel
+
+/-! ## round 6: `esl_sq_Grow` / `esl_sq_GrowTo` allocation sizes; an `ESL_SQ` with `ss` + `xr` markup through every mode change -/
+
+/-- **`esl_sq_Grow(sq, &nsafe)`** for ANY `n` (the "keep doubling" loop, not only "one cell short"; `n+2 ≤ 2^64`) and any
+    `salloc ≥ 1`: `nsafe ≥ 1`; the new allocation is exactly `n + nsafe` cells (text) / `n + 1 + nsafe` (digital) — the `nsafe`
+    cells the caller may write next, the NUL / sentinel counted as a residue, lie inside it —; it never shrinks, is the old
+    size doubled `k` times, and is unchanged when there already was room -/
+theorem sq_grow_covers (digital : Bool) (salloc n : Nat) (h1 : 1 ≤ salloc) (hn : n + 2 ≤ 2 ^ 64) :
+    1 ≤ (Sq.sqGrowN digital salloc n).1 ∧
+    ((Sq.sqGrowN digital salloc n).2 : Int) = n + (if digital then 1 else 0) + (Sq.sqGrowN digital salloc n).1 ∧
+    salloc ≤ (Sq.sqGrowN digital salloc n).2 ∧ (∃ k, (Sq.sqGrowN digital salloc n).2 = salloc * 2 ^ k) ∧
+    (n + (if digital then 2 else 1) ≤ salloc → (Sq.sqGrowN digital salloc n).2 = salloc) ∧
+    (Sq.sqGrowN digital salloc n).2 = Sq.sqGrow digital salloc n :=
+  ⟨(Sq.sqGrowN_spec digital salloc n h1 hn).1, (Sq.sqGrowN_spec digital salloc n h1 hn).2.1, (Sq.sqGrowN_spec digital salloc n h1 hn).2.2.1,
+   (Sq.sqGrowN_spec digital salloc n h1 hn).2.2.2.1, (Sq.sqGrowN_spec digital salloc n h1 hn).2.2.2.2, Sq.sqGrowN_snd digital salloc n⟩
+
+/-- **`esl_sq_GrowTo(sq, n)`**: the allocation afterwards holds `n` residues + NUL (text) / + both sentinels (digital), never
+    shrinks, and is either unchanged or exactly that size -/
+theorem sq_growto_covers (digital : Bool) (salloc n : Nat) :
+    n + (if digital then 2 else 1) ≤ Sq.sqGrowTo digital salloc n ∧ salloc ≤ Sq.sqGrowTo digital salloc n ∧
+    (Sq.sqGrowTo digital salloc n = salloc ∨ Sq.sqGrowTo digital salloc n = n + (if digital then 2 else 1)) :=
+  Sq.sqGrowTo_spec digital salloc n
+
+example : Sq.sqGrowN false 256 256 = (256, 512) ∧ Sq.sqGrowN true 256 255 = (256, 512) ∧ Sq.sqGrowN true 256 254 = (1, 256) ∧
+    Sq.sqGrowN false 4 100 = (28, 128) ∧ Sq.sqGrowTo true 256 255 = 257 ∧ Sq.sqGrowTo false 256 255 = 256 := by decide
+
+/-- `Sq.SqObj.Inv` (room for the residues and their terminators, every markup buffer of `salloc` cells, markup strings as long
+    as the sequence) holds for what `esl_sq_CreateFrom` / `esl_sq_CreateDigitalFrom` build and is kept by Grow and GrowTo,
+    which change nothing but the allocation (sequence and ALL markup buffers together) -/
+theorem sq_object_grow_keeps_invariant (o : Sq.SqObj) (h : o.Inv) (hn : o.n + 2 ≤ 2 ^ 64) (k : Nat) :
+    (o.grow.2.Inv ∧ 1 ≤ o.grow.1 ∧ (o.grow.2.salloc : Int) = o.n + (if o.digital then 1 else 0) + o.grow.1 ∧
+      o.grow.2 = { o with salloc := o.grow.2.salloc, mcap := o.grow.2.salloc }) ∧
+    ((o.growTo k).Inv ∧ k + (if o.digital then 2 else 1) ≤ (o.growTo k).salloc ∧
+      o.growTo k = { o with salloc := (o.growTo k).salloc, mcap := (o.growTo k).salloc }) :=
+  ⟨Sq.SqObj.grow_inv o h hn, Sq.SqObj.growTo_inv o h k⟩
+
+/-- **`esl_sq_Digitize` / `esl_sq_Textize` on an object with `ss` and `xr` markup**: Digitize leaves a digital object alone,
+    rejects text with a character outside the alphabet (eslEINVAL, object untouched), and on valid text gives one code per
+    character with `salloc` raised to `n+2` when `esl_sq_CreateFrom`'s `n+1` was one short; Textize spells valid codes; in both
+    the markup strings, `start`, `end` are unchanged and the `memmove` shifting EVERY markup buffer by one cell stays inside
+    its allocation (the model's bounds check never fires: `≠ none`); the invariant is kept -/
+theorem sq_object_digitize_textize (a : Alphabet) (o : Sq.SqObj) (h : o.Inv) :
+    ((o.digital = true → Sq.SqObj.digitize a o = some (.ok, o)) ∧
+     (o.digital = false → o.res.all a.cIsValid = false → Sq.SqObj.digitize a o = some (.einval, o)) ∧
+     (o.digital = false → o.res.all a.cIsValid = true →
+       Sq.SqObj.digitize a o = some (.ok, o.digitized a) ∧ (o.digitized a).Inv)) ∧
+    (o.digital = true → (∀ x ∈ o.res, x < a.sym.length) →
+      Sq.SqObj.textize a o = some (.ok, { o with digital := false, res := o.res.map a.symAt }) ∧
+      ({ o with digital := false, res := o.res.map a.symAt } : Sq.SqObj).Inv) :=
+  ⟨Sq.SqObj.digitize_spec a o h, fun hd hv => Sq.SqObj.textize_spec a o h hd hv⟩
+
+/-- **`esl_sq_ReverseComplement` and the markup**: in text mode (always; eslEINVAL when a non-nucleic character became `N`) and
+    in digital mode with a complement table, the sequence becomes its reverse complement (same length), `ss` is NULL, ALL extra
+    residue markup is dropped (`nxr = 0`: c71354f), `start`/`end` are swapped, the allocation is unchanged; a digital alphabet
+    without complement answers eslEINCOMPAT and the object, markup included, is untouched -/
+theorem sq_revcomp_markup (a : Alphabet) (o : Sq.SqObj) (h : o.Inv) :
+    (o.digital = false → ∃ st, (st = .ok ∨ st = .einval) ∧
+      Sq.SqObj.revcomp a o = some (st, { o with res := (Sq.revcompText o.res).2, ss := none, xr := [], start := o.stop, stop := o.start }) ∧
+      (Sq.revcompText o.res).2.length = o.n ∧
+      ({ o with res := (Sq.revcompText o.res).2, ss := none, xr := [], start := o.stop, stop := o.start } : Sq.SqObj).Inv) ∧
+    (o.digital = true → a.complement = none → Sq.SqObj.revcomp a o = some (.eincompat, o)) ∧
+    (o.digital = true → ∀ comp, a.complement = some comp → (∀ x ∈ o.res, x < comp.length) →
+      Sq.SqObj.revcomp a o = some (.ok, { o with res := o.res.reverse.map (compAt comp), ss := none, xr := [], start := o.stop, stop := o.start }) ∧
+      ({ o with res := o.res.reverse.map (compAt comp), ss := none, xr := [], start := o.stop, stop := o.start } : Sq.SqObj).Inv) :=
+  Sq.SqObj.revcomp_markup a o h
+
+/-- **`esl_sq_Copy` into a fresh object, all four mode combinations, markup included** (text → digital copies the extra residue
+    markup whether or not there is an `ss` line since fix cdfb777 — the defect this round's model found): an eslOK copy holds the
+    converted residues, the SAME `ss` and `xr` strings, `start`, `end`, an allocation of `max(256, n+1 | n+2)` cells for the
+    sequence and for every markup buffer (every `strcpy` fits) and satisfies the invariant; text → digital of text with a
+    character outside the alphabet answers eslEINVAL and leaves the emptied destination of `esl_sq_Reuse` -/
+theorem sq_object_copy_spec (a : Alphabet) (o : Sq.SqObj) (h : o.Inv) (toDigital : Bool) :
+    let salloc := Sq.sqGrowTo toDigital Sq.eslSQ_SEQCHUNK o.n
+    (o.digital = false → toDigital = false →
+      Sq.SqObj.copyTo a o toDigital = some (.ok, { o with salloc := salloc, mcap := salloc })) ∧
+    (o.digital = true → toDigital = true →
+      Sq.SqObj.copyTo a o toDigital = some (.ok, { o with salloc := salloc, mcap := salloc })) ∧
+    (o.digital = false → toDigital = true → o.res.all a.cIsValid = true →
+      Sq.SqObj.copyTo a o toDigital = some (.ok, { o with digital := true, res := o.res.map a.inmapAt, salloc := salloc, mcap := salloc })) ∧
+    (o.digital = false → toDigital = true → o.res.all a.cIsValid = false →
+      Sq.SqObj.copyTo a o toDigital = some (.einval, Sq.SqObj.reusedDst true salloc o.ss.isSome)) ∧
+    (o.digital = true → toDigital = false → (∀ x ∈ o.res, x < a.sym.length) →
+      Sq.SqObj.copyTo a o toDigital = some (.ok, { o with digital := false, res := o.res.map a.symAt, salloc := salloc, mcap := salloc })) ∧
+    (∀ o', (o.digital = true → toDigital = false → ∀ x ∈ o.res, x < a.sym.length) →
+      Sq.SqObj.copyTo a o toDigital = some (.ok, o') → o'.Inv ∧ o'.ss = o.ss ∧ o'.xr = o.xr ∧ o'.n = o.n ∧
+      o'.start = o.start ∧ o'.stop = o.stop ∧ o'.digital = toDigital) :=
+  Sq.SqObj.copyTo_spec a o h toDigital
+
+/-- non-vacuity: `esl_sq_CreateFrom("ACGT", ss "<..>")` + two markup lines satisfies the invariant; Digitize raises `salloc` 5 → 6
+    and keeps all markup; ReverseComplement drops it and swaps the coordinates; the copy to digital mode keeps it -/
+example :
+    let o : Sq.SqObj := { digital := false, res := str "ACGT", salloc := 5, mcap := 5, ss := some (str "<..>"),
+                          xr := [str "1234", str "abcd"], start := 1, stop := 4 }
+    Sq.mkObj false false (str "ACGT") (some (str "<..>")) [str "1234", str "abcd"] = some o ∧
+    Sq.SqObj.digitize G.dna o = some (.ok, { o with digital := true, res := [0, 1, 2, 3], salloc := 6, mcap := 6 }) ∧
+    Sq.SqObj.revcomp G.dna o = some (.ok, { o with res := str "ACGT", ss := none, xr := [], start := 4, stop := 1 }) ∧
+    Sq.SqObj.revcomp G.amino { o with digital := true, res := [0, 1, 2, 3], salloc := 6, mcap := 6 } =
+      some (.eincompat, { o with digital := true, res := [0, 1, 2, 3], salloc := 6, mcap := 6 }) ∧
+    Sq.SqObj.copyTo G.dna { o with ss := none } true =
+      some (.ok, { o with digital := true, res := [0, 1, 2, 3], salloc := 256, mcap := 256, ss := none }) := by decide +kernel
+example : (Sq.mkObj false false (str "ACGT") (some (str "<..>")) [str "1234"]).all (fun o => decide (o.salloc = 5 ∧ o.mcap = 5)) = true := by
+  decide
+example (o : Sq.SqObj) (h : Sq.mkObj true false [0, 1, 2] (some (str "<.>")) [] = some o) : o.Inv :=
+  Sq.SqObj.mkObj_inv true [0, 1, 2] (some (str "<.>")) [] (by decide) (by decide) o h
 
 /-! ## degenerate scores and counts (over ℚ: the code as a rational function; IEEE rounding is L0, compared bit-exactly
       against the real code by the correspondence run) -/
